@@ -14,7 +14,7 @@ fn fmt_stub2(_a: core::fmt::Arguments<'_>) -> String {
 // @harness c16_header_write
 // @props C16 C17 C04
 // @tier quick
-// @cost 100
+// @cost 74
 // @timeout 1200
 // @needs H0
 // @desc commit_header (whole body, backend shimmed) on a header without extensions: every request it sends starts at a block boundary and has a length that is a non-zero multiple of the block size; when the read of the header block or the write fails the rollback closure runs and the error is returned (a failed read writes nothing)
